@@ -111,3 +111,39 @@ theorem corners_length (N : Nat) : (corners N).length = 2^N := by
   | zero => rfl
   | succ n ih => simp [corners, List.length_flatMap, ih, Nat.pow_succ]
 end Covfie.C03
+
+/-! ### `lin_weights`: the weights are per-axis products, non-negative on [0,1]^N, and sum to one -/
+namespace Covfie.C03
+section ring
+variable {α : Type} [CommRing α]
+
+theorem nlin_const (as : List α) (c : α) : nlin as (fun _ => c) = c := by
+  induction as with
+  | nil => rfl
+  | cons a as ih => simp only [nlin, ih]; ring
+
+/-- the interpolant is the weighted sum of the 2^N surrounding values, the weight of neighbour `n` being the product over
+    the axes of `a_k` (bit k of n set) or `1 − a_k` (bit k clear) -/
+theorem nlin_eq_weighted_sum (as : List α) (v : List Bool → α) :
+    nlin as v = ∑ n ∈ Finset.range (2 ^ as.length), weight as n * v (bitsOf as.length n) := by
+  rw [← generic_eq_nlin, linGeneric, foldl_range_eq_sum]
+
+/-- the weights sum to one -/
+theorem weight_sum (as : List α) : ∑ n ∈ Finset.range (2 ^ as.length), weight as n = 1 := by
+  have h := nlin_eq_weighted_sum as (fun _ => (1 : α))
+  rw [nlin_const] at h
+  simpa using h.symm
+end ring
+
+/-- for fractional parts in [0,1] every weight is non-negative -/
+theorem weight_nonneg (as : List ℚ) (h : ∀ a ∈ as, 0 ≤ a ∧ a ≤ 1) (n : Nat) : 0 ≤ weight as n := by
+  induction as generalizing n with
+  | nil => simp [weight]
+  | cons a as ih =>
+    have ⟨a0, a1⟩ := h a List.mem_cons_self
+    have hr := ih (fun x hx => h x (List.mem_cons_of_mem _ hx)) (n / 2)
+    simp only [weight]
+    split_ifs
+    · exact mul_nonneg a0 hr
+    · exact mul_nonneg (by linarith) hr
+end Covfie.C03
